@@ -179,15 +179,18 @@ _SPEC_CHARS = 'A-Za-z0-9#-'
 
 def renderings(spec):
     chain, resname, resid = spec['chain'], spec['resname'], spec['resid']
-    base = (chain + '-' if chain is not None else '') + (resname or '')
+    bases = [(chain + '-' if chain is not None else '') + (resname or '')]
+    if chain == '':
+        bases.append(resname or '')  # an explicitly empty chain need not be echoed
     out = {spec['text']}
-    if resid is None:
-        out.add(base)
-        out.add(base + '#')
-    else:
-        out.add(base + '#' + str(resid))
-        if not (resname and resname[-1].isdigit()):
-            out.add(base + str(resid))
+    for base in bases:
+        if resid is None:
+            out.add(base)
+            out.add(base + '#')
+        else:
+            out.add(base + '#' + str(resid))
+            if not (resname and resname[-1].isdigit()):
+                out.add(base + str(resid))
     out.discard('')
     return out
 
@@ -333,7 +336,8 @@ def run_annotate(system, modifications, mutations):
 
 
 def evaluate_annotation(case, mol_data, system, exc, messages, strict):
-    """Compare the observed result with the statement.  Returns (bucket, message) or None."""
+    """Compare the observed result with the statement.  Returns (stage, bucket, message) or None; stage 0 = error
+    behaviour, 1 = annotations, 2 = reporting."""
     prot = set(PROT)
     requests = [('mutation', s) for s in case['mutations']] + [('modification', s) for s in case['modifications']]
     known = {'mutation': set(case['known_blocks']), 'modification': set(case['known_mods']) | {'none'}}
@@ -357,15 +361,15 @@ def evaluate_annotation(case, mol_data, system, exc, messages, strict):
     if exc is not None:
         if must_raise:
             if not any(spec['target'] in str(exc) for spec in must_raise):
-                return 'nameerror-names-other', 'NameError %r does not name any of the unknown targets %r' % (
+                return 0, 'nameerror-names-other', 'NameError %r does not name any of the unknown targets %r' % (
                     str(exc), [s['target'] for s in must_raise])
             return None
         if may_raise:
             return None
-        return 'nameerror-unexpected', 'NameError %r although every target of a matching request is known' % str(exc)
+        return 0, 'nameerror-unexpected', 'NameError %r although every target of a matching request is known' % str(exc)
     if must_raise:
         spec = must_raise[0]
-        return 'unknown-target-accepted', 'request %s:%s matches a residue and the target is unknown, but no error was raised' % (
+        return 0, 'unknown-target-accepted', 'request %s:%s matches a residue and the target is unknown, but no error was raised' % (
             spec['text'], spec['target'])
     # annotations: nothing missing, nothing extra, on all atoms
     for midx, mol in enumerate(system.molecules):
@@ -388,7 +392,7 @@ def evaluate_annotation(case, mol_data, system, exc, messages, strict):
                             bucket = 'annotation-extra'
                         else:
                             bucket = 'annotation-missing'
-                        return bucket, ('molecule %d residue %s-%s%s%s atom %r: %s is %r, the requests %r name it %r' % (
+                        return 1, bucket, ('molecule %d residue %s-%s%s%s atom %r: %s is %r, the requests %r name it %r' % (
                             midx, res.chain, res.resname, res.resid, res.icode, node, key, got,
                             ['%s:%s' % (s['text'], s['target']) for k, s in requests if k == key], expect[key]))
     # reporting: every unmatched request is named by a warning, and nothing else is
@@ -399,13 +403,13 @@ def evaluate_annotation(case, mol_data, system, exc, messages, strict):
             continue
         culprit = [spec for spec in matched_specs if names_spec(message, spec)]
         if culprit:
-            return 'matched-spec-reported', 'warning %r although request %r matches %d residue(s)' % (
+            return 2, 'matched-spec-reported', 'warning %r although request %r matches %d residue(s)' % (
                 message, culprit[0]['text'], len(matched[[s for _, s in requests].index(culprit[0])]))
-        return 'spurious-warning', 'warning %r names none of the unmatched requests %r' % (
+        return 2, 'spurious-warning', 'warning %r names none of the unmatched requests %r' % (
             message, [s['text'] for s in unmatched])
     for spec in unmatched:
         if not any(names_spec(message, spec) for message in messages):
-            return 'unmatched-not-reported', ('request %s:%s matches no residue in the whole system but no warning names it '
+            return 2, 'unmatched-not-reported', ('request %s:%s matches no residue in the whole system but no warning names it '
                                               '(requests %r, warnings %r)' % (
                                                   spec['text'], spec['target'],
                                                   ['%s:%s' % (s['text'], s['target']) for _, s in requests], messages))
@@ -436,13 +440,13 @@ def _run_annotate(case):
     problem = evaluate_annotation(case, mol_data, system, exc, messages, strict=True)
     if problem is not None:
         lenient = evaluate_annotation(case, mol_data, system, exc, messages, strict=False)
-        if lenient is None:
+        if lenient is None or lenient[0] > problem[0]:
             spec = [s for s in case['mutations'] + case['modifications']
                     if s['resname'] in ('nter', 'cter') and s['resid'] is not None]
             raise Violation('terminal-resid-ignored',
                             'request(s) %r give a residue number together with nter/cter; the result is only explained if '
-                            'that number is ignored (%s)' % ([s['text'] for s in spec], problem[1]))
-        raise Violation(*problem)
+                            'that number is ignored (%s)' % ([s['text'] for s in spec], problem[2]))
+        raise Violation(problem[1], problem[2])
 
     # ---- classes
     classes = []
@@ -556,7 +560,8 @@ def _annotate_case(draw):
         if mode in ('existing', 'perturbed'):
             c, n, r = draw(st.sampled_from(existing))
             parts = draw(st.sampled_from([(1, 1, 1), (0, 1, 1), (0, 1, 0), (1, 1, 0), (0, 0, 1), (1, 0, 1), (1, 0, 0),
-                                          (0, 1, 1), (1, 1, 1)]))
+                                          (0, 1, 1), (1, 1, 1), (0, 1, 1), (0, 1, 0), (1, 1, 0), (1, 1, 1), (0, 1, 1),
+                                          (0, 1, 1), (1, 1, 1), (0, 1, 0), (1, 1, 0), (0, 1, 1), (0, 1, 0)]))
             chain = c if parts[0] else None
             resname = n if parts[1] else None
             resid = r if parts[2] else None
@@ -650,7 +655,7 @@ def build_peptide(case, ff):
         names, bedges = block_names_edges(ff, rd['resname'])
         local = {}
         for name in names:
-            if case['strip_h'] and name.startswith('H'):
+            if rd['strip_h'] and name.startswith('H'):
                 continue
             if name in rd.get('drop', []):
                 continue
@@ -774,8 +779,10 @@ def _run_repair(case):
         classes.append('modification-applied')
     if any(muts and mods for _, muts, mods in expect.values()):
         classes.append('mutation-and-modification-on-one-residue')
-    if case['strip_h']:
+    if any(rd['strip_h'] for rd in case['residues']):
         classes.append('hydrogens-stripped')
+    if any(not rd['strip_h'] for rd in case['residues']):
+        classes.append('with-hydrogens')
     if not any(muts or mods for _, muts, mods in expect.values()):
         classes.append('nothing-hit')
     nontrivial = removed_any and (any(mods for _, _, mods in expect.values()) or len(requests) >= 2)
@@ -788,7 +795,8 @@ def _repair_case(draw):
     resid0 = draw(st.sampled_from([1, 1, 5, 42]))
     step = draw(st.sampled_from([1, 1, 1, -1]))
     names = [draw(st.sampled_from(AMINO)) for _ in range(nres)]
-    residues = [{'resname': names[i], 'resid': resid0 + (i if step > 0 else nres - i)} for i in range(nres)]
+    residues = [{'resname': names[i], 'resid': resid0 + (i if step > 0 else nres - i), 'strip_h': draw(st.booleans())}
+                 for i in range(nres)]
     chain = draw(st.sampled_from(['A', 'B']))
     final = {r['resid']: r['resname'] for r in residues}
 
@@ -805,6 +813,9 @@ def _repair_case(draw):
         target = draw(st.sampled_from(AMINO))
         mutations.append(spec_for(residues[i], target))
         final[residues[i]['resid']] = target
+        # the largest-common-subgraph search of the repair step is exponential in the number of atoms to drop; mutated
+        # residues come without hydrogens (as from a crystal structure)
+        residues[i]['strip_h'] = True
     special = draw(st.sampled_from(['', '', '', '', '', '', 'conflict', 'unfit']))
     if special == 'conflict' and mutations:
         r = residues[picked[0]]
@@ -834,7 +845,7 @@ def _repair_case(draw):
         if cands:
             r = draw(st.sampled_from(cands))
             modifications.append(spec_for(r, 'ASP-HD2'))
-    return {'residues': residues, 'chain': chain, 'strip_h': draw(st.booleans()),
+    return {'residues': residues, 'chain': chain,
             'mutations': mutations, 'modifications': modifications}
 
 
